@@ -8,7 +8,7 @@ A pattern is Python source.  In it
   obj.MV_X / f(MV_X=...)             matches any attribute / keyword name
   MV_                                 anonymous: matches anything, binds nothing
   ...         (as an expression)      matches any expression; inside an argument
-                                     list, a tuple/list display or a statement
+                                     list (where it also covers keyword arguments), a tuple/list display or a statement
                                      block it matches any run of elements
   a block     with several statements matches a block that contains matching
                                      statements in that order (other
@@ -128,6 +128,8 @@ def match(p, n, env):
         if isinstance(pv, list):
             if not isinstance(nv, list):
                 return False
+            if field == "keywords" and not pv and isinstance(p, ast.Call) and any(_is_ellipsis(a) for a in p.args):
+                continue            # f(...) : keyword arguments are covered by the ellipsis
             block = field in ("body", "orelse", "finalbody") and (not pv or isinstance(pv[0], ast.stmt))
             if block and field == "orelse" and not pv:
                 continue            # pattern without else: don't care
